@@ -14,3 +14,4 @@ import ScadVerif.Props.C14
 import ScadVerif.Props.C16
 import ScadVerif.Props.C15
 import ScadVerif.Props.C17
+import ScadVerif.Props.C19
